@@ -137,13 +137,21 @@ def from_name_add_param(prog):
     parameter, or None. Feasible paths, because the flag may be turned into an enum / a local first and re-tested
     later (`let on_missing = if allow_add {Insert} else {Fail}; .. if let Fail = on_missing {return ..}`): the block
     paths through the join do not exist. Independent of the parameter's position and name."""
-    from core import FA
+    from core import FA, FAX, FAx
     fn = prog.one(r"state::File::from_name")
     ba = BA.of(fn)
-    fa = FA.of(fn)
     ws = ba.calls(re.escape(WRITE))
     if not ws:
         return None
+    for cls in (FA, FAX, FAx):
+        # (the enum the flag was turned into may be compared with `==`: derived PartialEq, followed by FAX / FAx)
+        r = _add_param(fn, ba, cls.of(fn), ws)
+        if r is not None:
+            return r
+    return None
+
+
+def _add_param(fn, ba, fa, ws):
     for sw in sorted(ba.live):
         bs = ba.bool_switch(sw)
         if not bs:
